@@ -486,10 +486,13 @@ func (rp *ReverseProxy) ServeHTTP(rw http.ResponseWriter, outreq *http.Request, 
 
 		// Now copy over the status code as well as the response body.
 		rw.WriteHeader(res.StatusCode)
-		if announcedTrailerKeyCount > 0 {
-			// Force chunking if we saw a response trailer.
+		if announcedTrailerKeyCount > 0 || res.ContentLength == -1 {
+			// Force chunking if we saw a response trailer, or if the
+			// backend itself uses chunked framing: only then can it
+			// still send unannounced trailers after the body.
 			// This prevents net/http from calculating the length
-			// for short bodies and adding a Content-Length.
+			// for short bodies and adding a Content-Length, which
+			// would drop the trailers.
 			if fl, ok := rw.(http.Flusher); ok {
 				fl.Flush()
 			}
